@@ -40,8 +40,11 @@ def run_checks(repo, evdir):
 def verify(mdir):
     wt = os.path.dirname(os.path.dirname(mdir))
     name = os.path.basename(mdir)
-    prop = os.path.basename(wt).replace("wt_", "").replace("w2_", "")
-    rnd = "r2" if "w2_" in wt else ""
+    import re as _re
+
+    mm = _re.match(r"w(t|\d+)_(C\d\d)$", os.path.basename(wt))
+    prop = mm.group(2) if mm else os.path.basename(wt)
+    rnd = f"r{mm.group(1)}" if mm and mm.group(1) not in ("t", "1") else ""
     tmp = tempfile.mkdtemp(prefix="seedv-")
     env = dict(os.environ, XDG_DATA_HOME=tmp + "/data", XDG_CONFIG_HOME=tmp + "/config", XDG_CACHE_HOME=tmp + "/cache", PYTHONPATH=wt, HOME=tmp)
     out = {"mutant": f"{prop}-{rnd}{name}", "property": prop, "dir": mdir}
